@@ -21,7 +21,15 @@ class FrozenContext(collections.abc.Mapping):
     __slots__ = ['__frozencontext']
 
     def __init__(self, context: Dict) -> None:
-        self.__frozencontext = {k: copy.copy(v) for k, v in context.items()}
+        self.__frozencontext = {k: self.__copy_value(v) for k, v in context.items()}
+
+    @staticmethod
+    def __copy_value(value):
+        try:
+            return copy.copy(value)
+        except TypeError:
+            # Some objects cannot be copied (e.g. a module imported by the preamble): share them
+            return value
 
     def __getattr__(self, item):
         try:
